@@ -195,6 +195,27 @@ fn continuity(idx: u64, rng: &mut Rng, mon: &mut Mon) {
             mon.violation(&format!("continuity:first-answer-not-previous:signs46={}:{}", signs, off_class), "wrist-singular pose, previous realises it, but the first continuation answer is not the previous joints", detail("first-is-previous", &q, &sols, json!({"tolerance": s_tol})))
         }
     }
+    // clause 1b: the previous joints realise the pose through representatives wound by whole turns
+    // (inside the documented +-2pi range): they must still come back first
+    {
+        let mut prev = q;
+        let mut wound = false;
+        for j in [3usize, 5, 0] {
+            let k = if q[j] > 0.0 { -1.0 } else { 1.0 };
+            if rng.bool(0.8) && (q[j] + 2.0 * PI * k).abs() <= 2.0 * PI {
+                prev[j] = q[j] + 2.0 * PI * k;
+                wound = true;
+            }
+        }
+        if wound {
+            let sols = kin.inverse_continuing(&pose, &prev);
+            mon.count("continuity.wound_previous");
+            match sols.first() {
+                Some(s) if (0..6).all(|j| (s[j] - prev[j]).abs() <= s_tol) => mon.held(),
+                _ => mon.violation(&format!("continuity:first-answer-not-previous:wound-by-turns:signs46={}", signs), "wrist-singular pose, previous (given by representatives a whole turn away) realises it, but the first continuation answer is not the previous joints", detail("first-is-previous-wound", &prev, &sols, json!({"tolerance": s_tol}))),
+            }
+        }
+    }
     // clause 2: previous with J4,J6 shifted by (+e,-e'): recovered answer moves J4 and J6 by the same model amount
     let e1 = rng.range(-1.0, 1.0);
     let e2 = rng.range(-1.0, 1.0);
